@@ -133,20 +133,22 @@ def to_trace(run: dict):
         if "harness_error" in run:
             return None, "harness_error: " + run["harness_error"][-300:]
         events, out, tens = run["events"], run["out"], run.get("tensors", {})
+        died = bool(run.get("died"))
         vis = F.PY_VIS
     else:
         if not run.get("begin"):
             return None, "injection hit outside the save (before the begin marker)"
         events = run["events"]
         res = run.get("res") or {}
+        died = False
         if "out" in res:
             out, tens = res["out"], res.get("tensors", {})
-        elif run.get("killed_in") or run.get("rc") in (-9, 137) or not run.get("end"):
-            out, tens = "crashed", {}
-            if not any(e["r"] == "kill" for e in events):
-                return None, f"child died without a kill event (rc={run.get('rc')}): {run.get('stderr', '')[-200:]}"
+        elif run.get("end"):
+            return None, "killed after the save had returned"
         else:
-            return None, "no result from the child"
+            # the process died inside the save: by the injected SIGKILL, or on its own
+            out, tens = "crashed", {}
+            died = not any(e["r"] == "kill" for e in events)
         vis = F.SYS_VIS
     fails = [e for e in events if e["r"] == "fail"]
     replaced = any(e["a"] == "Replace" and e["r"] == "ok" for e in events)
@@ -162,7 +164,7 @@ def to_trace(run: dict):
         "tfile": obs["tfile"], "out": out, "invalid": invalid, "unusable": unusable,
         "prodFail": bool(prod), "cleanupFail": any(e["a"] in ("RmTmpFile", "RmTmpDir") for e in fails),
     }
-    return {"cfg": spec_cfg(c), "vis": vis, "ev": [F.spec_event(e) for e in events], "end": end}, None
+    return {"cfg": spec_cfg(c), "vis": vis, "ev": [F.spec_event(e) for e in events], "end": end, "died": died}, None
 
 
 def fault_of(run: dict):
@@ -199,6 +201,15 @@ def py_faults(events: list, tier: str) -> list:
         else:
             out.append(dict(base, kind="fail", exc="os", errno="EIO"))
         out.append(dict(base, kind="kill"))
+    if tier == "thorough":
+        # fault sequences: a failure while producing the file, then a failing clean-up effect
+        # (the close of the `with` block, the unlink or the rmdir of the finally clause)
+        singles = [f for f in out if f["kind"] == "fail" and f["a"] in F.PRODUCING and f["a"] != "CloseTmp"]
+        nfiles = sum(1 for e in events if e["a"] == "MkTmpDir") or 1   # occurrences are per destination file
+        for f in singles:
+            for second in ("CloseTmp", "RmTmpFile", "RmTmpDir"):
+                for occ in range(1, nfiles + 1):
+                    out.append([f, {"a": second, "t": 0, "j": 0, "occ": occ, "kind": "fail", "exc": "os", "errno": "EIO"}])
     return out
 
 
@@ -309,6 +320,8 @@ def _detail(run: dict, tr: dict, props: list) -> dict:
     else:
         d["inject"] = run.get("inject")
     a, kind = fault_of(run)
+    if tr.get("died"):
+        kind = "self-crash"
     d["message"] = (
         f"{'/'.join(props)} violated: {cfg_kind(run['cfg'])} save ({run['layer']} layer), {kind} at {a}: "
         f"destination={tr['end']['files']} out={tr['end']['out']} tmpdir={tr['end']['tdir']} "
@@ -333,6 +346,9 @@ def judge(ctx, runs: list, tag: str, allowed: dict | None = None) -> None:
     for i, (run, tr) in enumerate(zip(usable, traces), start=1):
         v = verdicts[i]
         a, kind = fault_of(run)
+        if tr.get("died"):
+            a, kind = (tr["ev"][-1]["a"] if tr["ev"] else "none"), "self-crash"
+            ctx.extra["process_died_on_its_own"] = ctx.extra.get("process_died_on_its_own", 0) + 1
         c = run["cfg"]
         key = (run["layer"], cfg_kind(c), a, kind, tr["end"]["out"])
         ctx.case(key, nontrivial=(kind != "none"),
@@ -340,6 +356,8 @@ def judge(ctx, runs: list, tag: str, allowed: dict | None = None) -> None:
                          "events": [f"{e['a']}:{e['r']}" for e in tr["ev"]], "end": tr["end"]["files"] + [tr["end"]["out"]]}
                  if kind != "none" and len(ctx.samples) < 3 else None)
         ctx.extra["injected_runs"] = ctx.extra.get("injected_runs", 0) + (1 if kind != "none" else 0)
+        if sum(1 for e in tr["ev"] if e["r"] in ("fail", "kill")) >= 2:
+            ctx.extra["fault_sequence_runs"] = ctx.extra.get("fault_sequence_runs", 0) + 1
         lay = ctx.extra.setdefault("runs_by_layer", {})
         lay[run["layer"]] = lay.get(run["layer"], 0) + 1
         if v["acc"]:
@@ -428,13 +446,15 @@ def run(ctx):
             raise MachineryError("binding could not be installed: " + r0["binding_error"])
         if "harness_error" in r0:
             raise MachineryError("python layer run 0 failed: " + r0["harness_error"])
+        if r0.get("died"):
+            continue   # the fault-free save killed its own process: judged below as a crashed run
         faults = py_faults(r0["events"], ctx.tier)
         if ctx.tier == "quick" and c["par"]:
             faults = rng.sample(faults, min(len(faults), 24))
         for n, fl in enumerate(faults):
             jobs.append({"cfg": c, "dir": os.path.join(base, f"py-{i}-{n}"), "fault": fl})
     pruns = _pool_map(F.py_job, jobs, procs)
-    notfired = sum(1 for r in pruns if r.get("fired") == 0)
+    notfired = sum(1 for r in pruns if r.get("fired") == 0 and not isinstance(r.get("fault"), list))
     ctx.extra["py_faults_not_reached"] = notfired   # parallel schedules differ from run 0
     judge(ctx, run0 + pruns, "py", allowed)
     ctx.extra["wall_py_s"] = round(time.time() - t0, 1)
@@ -450,8 +470,10 @@ def run(ctx):
         s0 = _pool_map(F.sys_job, [{"cfg": c, "dir": os.path.join(base, f"sys0-{i}")} for i, c in enumerate(scfgs)], procs)
         jobs = []
         for i, (c, r0) in enumerate(zip(scfgs, s0)):
-            if not (r0.get("begin") and r0.get("end")):
+            if not r0.get("begin"):
                 raise MachineryError(f"syscall layer run 0 unusable for {F.cfg_key(c)}: rc={r0.get('rc')} {r0.get('stderr', '')[-300:]}")
+            if not r0.get("end"):
+                continue   # the fault-free save killed its own process: judged below as a crashed run
             for n, inj in enumerate(sys_injections(r0, ctx.tier, rng)):
                 jobs.append({"cfg": c, "dir": os.path.join(base, f"sys-{i}-{n}"), "inject": inj})
         sruns = _pool_map(F.sys_job, jobs, procs)
